@@ -20,6 +20,8 @@ def device_kwargs(rng, n_grid=None, overrides=True):
         if rng.random() < 0.35: kw["j"] = float(current / (np.pi * r_e ** 2) * 1e-4 * 10 ** rng.uniform(-0.7, 0.7))
         if rng.random() < 0.35: kw["fwhm"] = float(10 ** rng.uniform(0.3, 1.8))
         if rng.random() < 0.25: kw["v_ra"] = float(10 ** rng.uniform(1, 3))
+        # a barrier drift tube of another radius than the trap's (the barrier correction is then solved on its own mesh)
+        if rng.random() < 0.25: kw["r_dt_bar"] = float(kw["r_dt"] * rng.uniform(0.4, 2.0))
     return kw
 
 
